@@ -690,14 +690,13 @@ def run(chk: core.Check):
     rng = chk.rng
     budget = 10 if chk.broken else 1
 
-    _timed(chk, stage_expressions, rng, (900 if quick else 9000))
-    _timed(chk, stage_pointers, rng, (600 if quick else 6000))
+    _timed(chk, stage_expressions, rng, (650 if quick else 9000))
+    _timed(chk, stage_pointers, rng, (450 if quick else 6000))
     _timed(chk, stage_status, rng, (300 if quick else 3000))
-    _timed(chk, stage_links, rng, (40 if quick else 500))
-    _timed(chk, stage_live, rng, (3 if quick else 25) * budget)
-
+    _timed(chk, stage_links, rng, (30 if quick else 500))
     for f in chk.findings:
         chk.known(f, witness_fails(f["witness"]))
+    _timed(chk, stage_live, rng, (3 if quick else 25) * budget)
 
 
 # ----------------------------------------------------------------------------------------
@@ -773,6 +772,9 @@ def stage_expressions(chk, rng, n):
         m = poutcome(m_eval)
         if not same_outcome(i_eval, m):
             chk.disagree("expressions.evaluate vs Model_C10.eval_str", canon, i_eval, m)
+            ref = ref_evaluate(e, c, url)
+            if ref is not None and ref != ("value", OPAQUE) and i_eval != ref and expr_region(e, c) is None:
+                chk.fail("evaluate differs from the denotation of the expression", canon, {"implementation": i_eval, "reference": ref})
             continue
         chk.count("expr:" + i_nodes[0] + ("" if i_nodes[0] == "ok" else ":" + i_nodes[1]))
         stats["accepted" if i_nodes[0] == "ok" else "rejected"] += 1
@@ -871,6 +873,10 @@ def stage_pointers(chk, rng, n):
             impl = f"raises {type(exc).__name__}"
         if impl != pvalue(m_res):
             chk.disagree("transforms.resolve_pointer vs Model_C10.resolve_pointer", canon, impl, pvalue(m_res))
+            # the tie is broken: ask the property oracle directly
+            ref = rfc_or_unres(d, p)
+            if impl != ref and not py_lenient_hit(d, p) and not re.search(r"~(?![01])", p):
+                chk.fail("resolve_pointer differs from RFC 6901 on a pointer with canonical tokens", canon, {"implementation": impl, "rfc6901": ref})
             continue
         ref = rfc_or_unres(d, p)
         if ref != pvalue(m_rfc):
@@ -977,6 +983,10 @@ def stage_status(chk, rng, n):
         mf = [None if x is None else x[1] for x in m_filters]
         if impl_filters != mf:
             chk.disagree("make_response_filter vs Model_C10.response_filter", canon, impl_filters, mf)
+            if not raised and all(k == "default" or re.fullmatch(r"[0-9Xx]{3}", k) for k in keys):
+                spec = [spec_matches(k, keys, code) for k in link_keys]
+                if impl_filters != spec:
+                    chk.fail("response filter differs from the meaning of the response key", canon, {"implementation": impl_filters, "spec": spec})
             continue
         if not raised:
             impl_bundle = make_response_matcher(fns)(_Stub(code))
@@ -1242,12 +1252,21 @@ def stage_links(chk, rng, n):
                 ok_final = False
         if not ok_final:
             chk.disagree("into_step_input parameters vs Model_C10.final_container", canon, impl_final, model_final)
-            continue
         i_fb = canon_impl_value(case.body)
         m_fb = pvalue(m_fbody)
         if not opaque_eq(m_fb, i_fb):
             chk.disagree("into_step_input body vs Model_C10.final_body", canon, i_fb, m_fb)
-            continue
+        # ---- oracle on the body: the link value replaces the generated body, or (merge, both objects) its members win
+        if i_b is not None and i_b[1] not in (UNRES, "<ERR>"):
+            new_body = i_b[1]
+            merge = (d.get("x-schemathesis") or {}).get("merge_body", True)
+            if merge and isinstance(new_body, dict) and isinstance(i_fb, dict):
+                if any(i_fb.get(k, "<ABSENT>") != v for k, v in new_body.items()):
+                    chk.fail("members of the link body do not override the generated body", canon, {"link_body": new_body, "sent": i_fb})
+            elif i_fb != new_body:
+                chk.fail("the link body does not replace the generated body", canon, {"link_body": new_body, "sent": i_fb})
+        elif i_b is not None and i_fb != GEN_BODY:
+            chk.fail("an unresolvable / failed link body changed the generated body", canon, {"sent": i_fb})
         # ---- oracle: link values override generated ones; unresolvable / None never sent
         blob = json.dumps([impl_final, i_fb], default=str)
         if UNRES in blob or "Unresolvable" in blob:
@@ -1258,7 +1277,7 @@ def stage_links(chk, rng, n):
                 key = (container, nm.lower() if container == "headers" else nm)
                 groups.setdefault(key, []).append(v)
         for (container, nm), vals in groups.items():
-            sendable = [v for v in vals if v not in (UNRES, None, "<ERR>")]
+            sendable = [v for v in vals if v is not None and v != UNRES and v != "<ERR>"]
             final = impl_final[container] or {}
             if container == "headers":
                 final = {k.lower(): v for k, v in final.items()}
@@ -1356,8 +1375,35 @@ def live_schema():
     }
 
 
+def hypothesis_bundle_shim() -> bool:
+    """Hypothesis 6.168 renamed RuleBasedStateMachine._add_result_to_targets to _add_results_to_targets(targets, results); the override in
+    schemathesis/generation/stateful/state_machine.py:180 is dead code there and no response ever reaches a link bundle (links are never
+    followed).  To observe link-derived requests at all, the harness process (never /repo) routes the new hook through the same
+    _get_target_for_result decision.  No-op as soon as APIStateMachine itself defines the new hook."""
+    from hypothesis.stateful import RuleBasedStateMachine
+
+    from schemathesis.generation.stateful.state_machine import APIStateMachine
+
+    if "_add_results_to_targets" in APIStateMachine.__dict__ or not hasattr(RuleBasedStateMachine, "_add_results_to_targets"):
+        return False
+
+    def _add_results_to_targets(self, targets, results):
+        for result in results:
+            if result is None:
+                continue
+            target = self._get_target_for_result(result)
+            if target is not None:
+                RuleBasedStateMachine._add_results_to_targets(self, (target,), [result])
+
+    APIStateMachine._add_results_to_targets = _add_results_to_targets
+    return True
+
+
 def stage_live(chk, rng, runs):
     """Oracle search: the real state machine (engine, stateful phase) against a scripted loopback API."""
+    if hypothesis_bundle_shim():
+        chk.notes.append("live stage: Hypothesis renamed _add_result_to_targets; harness-side shim installed so that responses reach link bundles "
+                         "(without it the unchanged code never follows a link on Hypothesis 6.168)")
     from urllib.parse import parse_qs, unquote, urlsplit
 
     from harness.engine_util import run_engine
@@ -1479,6 +1525,17 @@ def witness_fails(w) -> bool:
         from schemathesis.core.transforms import resolve_pointer
 
         return canon_impl_value(resolve_pointer(w["doc"], w["pointer"])) != rfc_or_unres(w["doc"], w["pointer"])
+    if kind == "live_links":
+        # fixed finding: a short stateful run must send at least one link-derived request (without any harness shim)
+        from harness.engine_util import run_engine
+
+        def responder(item):
+            if item["method"] == "POST" and item["target"].split("?")[0] == "/src":
+                return 201, [("Content-Type", "application/json"), ("X-Token", "t1"), ("Location", "/src/1")], b'{"id": 1, "items": [{"na/me": "a"}, {"na/me": "b"}]}'
+            return 200, [("Content-Type", "application/json")], b"{}"
+
+        _, seen = run_engine(live_schema(), responder, phases=["stateful"], max_examples=4, seed=w.get("seed", 1), checks=[], step_count=6)
+        return not any(r["target"].startswith("/ta/") for r in seen)
     if kind == "link":
         c = {**BASE_CTX, **w.get("ctx", {})}
         schema = link_schema(w["link"])
